@@ -98,3 +98,9 @@ Proof.
   - eapply C01_leaves_nonempty; eauto.
     intros i a p k _ Hp. apply C01_exec_primitives_consume in Hp. tauto.
 Qed.
+
+(* the hypotheses of C01_exec_lossless are met by real texts: the executable grammar accepts
+   "module m; wire [3:0] w = 4'hF; endmodule" and consumes all 41 bytes *)
+Example C01_exec_accepts_a_module :
+  exists fo st', Exec.exec GenPrims.span_defs GenPrims.prim_table grammar None start_source_text [109; 111; 100; 117; 108; 101; 32; 109; 59; 32; 119; 105; 114; 101; 32; 91; 51; 58; 48; 93; 32; 119; 32; 61; 32; 52; 39; 104; 70; 59; 32; 101; 110; 100; 109; 111; 100; 117; 108; 101; 10]%N 2000 = (Ok fo 41, st').
+Proof. eexists. eexists. vm_compute. reflexivity. Qed.
